@@ -41,7 +41,7 @@ CHECKS = {
     "C11": (A, "4.11", "end-to-end monitor: real client through a transforming relay (member of the property's product family) to the real server; handshake completion within a virtual-time bound, then C02's exactly-once/in-order sequence monitor on packets sent through the same relay",
             "held on every executed family member (all single-axis corners + seeded members of the full product, autodetected and with one forced -T/-O the path can carry): autodetection completed, and after every completed handshake 12 packets each way were delivered exactly once in order - except the recorded known finding",
             "liveness restated as bounded progress (300 virtual s handshake, 120 s delivery); forced options the path cannot carry are recorded but not judged; NULL/PRIVATE RDATA is relayed opaque (the family transforms names and text)"),
-    "C12": (B, "4.12", "differential monitor over receive-buffer residues: same datagram + 6 different stale-buffer contents through the tree's dns_decode(), all observable outputs compared",
+    "C12": (B, "4.12", "differential monitor over receive-buffer residues: (B) same datagram + 6 different stale-buffer contents through the tree's dns_decode(); (A) whole-program runs of the real server and client under 6 residue policies of the simulated recv(), complete output traces compared",
             "held on every generated datagram (valid queries/answers of all 7 record types cut at every byte, pointers and label lengths reaching the datagram end, inflated RDLENGTH / TXT lengths) x 6 residues",
             "sanitizers cannot see this class (the 64 KB buffer is addressable); a read past the end that cannot change any output is not reported"),
     "C13": (A, "4.13", "system() boundary monitor: every command the real client passes to system() is matched against a strict grammar while a model server feeds hostile login replies",
@@ -56,13 +56,13 @@ CHECKS = {
     "C16": (A, "4.16", "differential monitor (same time-scripted session with and without re-delivered queries) + per-select() invariant on the users[] snapshot + answer-cache same-payload rule",
             "held on every executed pair: server tun writes, packets delivered to the client and final transfer counters identical with and without re-deliveries; transfer counters unchanged across every iteration that handled only a re-delivered copy; identical repeats of the three most recently answered queries got the original payload",
             "re-deliveries are drawn from inside the documented windows; a case-changed copy of a query that is still held is a new query to the server by design and is judged by the invariant oracle only (DESIGN 9)"),
-    "C17": (B, "4.17", "exhaustive small-alphabet enumeration against a label-splitting reference matcher, ASan on exact-size strings",
+    "C17": (B, "4.17", "exhaustive small-alphabet enumeration against a label-splitting reference matcher, ASan on exact-size strings; plus a dispatch monitor on the real server (inside names answered by the tunnel server and never forwarded, outside names never answered, forwarded with -b)",
             "exhaustive for validation strings of length 0..7 and query names of length 0..8 over {a,A,b,-,.,*,0} against 16 domains; seeded random long names/domains; boundary lengths",
             "reference written from the property text; wildcard-matched label must be non-empty"),
-    "C18": (B, "4.18", "enumeration of (netmask, server position) with pool invariants and a reference lookup under a wrapped clock",
+    "C18": (B, "4.18", "enumeration of (netmask, server position) with pool invariants, a reference lookup under a wrapped clock, and a session history (slots handed out, logged in, expired, recycled) through find_available_user()",
             "exhaustive over all host positions for /20../30 (quick) and /16../30 (thorough), boundary + sampled positions for /8../15; lookup compared with the reference 'live logged-in owner'",
             "behaviour at exactly 60 s of silence is not asserted"),
-    "C19": (B, "4.19", "differential test against an independent MD5 (Python hashlib) incl. bit-flip sensitivity",
+    "C19": (B, "4.19", "differential test against an independent MD5 (Python hashlib) incl. bit-flip sensitivity; plus a wire-level monitor of the real client (login and every raw-login datagram, which raw-login reply it accepts) against a model server",
             "held on all generated (password, challenge) cases: every length 0..40 x boundary challenges, random cases, single-bit sensitivity, insensitivity to bytes beyond 32 and to output-buffer contents",
             "hashlib MD5 is the oracle; wire-level use of challenge+1/-1 is observed in Engine A runs"),
     "C20": (A, "4.20", "socket-boundary monitor on iodined -b (forward rule, reply-routing rule against a reference window of the 16 most recent forwarded queries) + exhaustive put/get enumeration of the table in a unit driver that #includes fw_query.c",
